@@ -7,8 +7,8 @@ From Gosk Require Import Base.Bytes Model.Ast Model.Eval Model.Asm Lemmas.AsmLem
 Import ListNotations.
 Local Open Scope Z_scope.
 
-Theorem C16_branch_reloc : forall E m st dol len delta name l,
-  gen_ocode E m (shift_sym delta st) (dol + delta) len (OJcc name (JLabel l)) = gen_ocode E m st dol len (OJcc name (JLabel l)).
+Theorem C16_branch_reloc : forall E m md st dol len delta name l,
+  gen_ocode E m (shift_sym delta st) (dol + delta) len (OJcc md name (JLabel l)) = gen_ocode E m st dol len (OJcc md name (JLabel l)).
 Proof. exact gen_branch_reloc. Qed.
 Print Assumptions C16_branch_reloc.
 
